@@ -1,2 +1,31 @@
-(* C17 -- theorems being added *)
-From HS Require Import Lib.Base.
+(* C17 -- streaming_body: coding headers agree with negotiation and with the body. *)
+From Coq Require Import String.
+From HS Require Import Lib.Base Lib.Bytes Model.Negot Model.Builder Proofs.NegotP.
+
+(* For every method, Accept-Encoding value (any bytes), gzip level and chunk size >= 1:
+   the response always carries Vary: accept-encoding; it carries Content-Encoding: gzip exactly
+   when should_gzip prefers gzip and the level is above 0; and the writer is the gzip writer
+   exactly in that case (one boolean decides both), no writer at all for HEAD. *)
+Theorem c17_headers_and_writer : forall meth ae level cap, 0 < cap ->
+  exists sg, should_gzip ae = Ok sg /\
+  match streaming_body meth ae with
+  | Ok b =>
+      build (with_gzip_level (with_chunk_size b cap) level) =
+      Ok ([(bs "vary", bs "accept-encoding")] ++ (if sg && (0 <? level) then [(bs "content-encoding", bs "gzip")] else []),
+          if beq_bytes meth HEAD_M then None else Some (if sg && (0 <? level) then KGzip level else KRaw))
+  | Panic _ => False
+  end.
+Proof.
+  intros meth ae level cap Hcap. destruct (should_gzip_total ae) as [sg Hsg]. exists sg. split; [exact Hsg|].
+  unfold streaming_body. rewrite Hsg. cbn [bind]. unfold build, with_gzip_level, with_chunk_size.
+  cbn [b_chunk_size b_gzip_level b_should_gzip b_body_needed].
+  destruct (N.eqb_spec cap 0); [lia|]. destruct (beq_bytes meth HEAD_M); reflexivity.
+Qed.
+
+(* the decision `sg` is C16's: for grammatical Accept-Encoding values it is the RFC preference *)
+Theorem c17_negotiation_is_c16 : forall l, l <> [] -> Forall elem_wf l ->
+  should_gzip (Some (Spec.AcceptEncoding.render_list l)) = Ok (Spec.AcceptEncoding.prefers_gzip l).
+Proof. exact should_gzip_grammar. Qed.
+
+Print Assumptions c17_headers_and_writer.
+Print Assumptions c17_negotiation_is_c16.
